@@ -79,3 +79,8 @@ package ingress
 //@   ensures [C08:forward_accept_needs_2xx] a != nil && trim(a.URL) != "" && result1 == 0 ==> sends == old(sends) + 1 && lastRespCode >= 200 && lastRespCode < 300
 //@   ensures [C08:forward_denials_pass_through] a != nil && trim(a.URL) != "" && (result1 == 401 || result1 == 403) ==> sends == old(sends) + 1 && lastRespCode == result1
 //@   ensures [C08:forward_one_call] sends == old(sends) || sends == old(sends) + 1
+
+//@ func (*HMACAuth).InheritReplayState
+//@   modifies a.nonce
+//@   ensures [C09:inherits] a != nil && prev != nil && prev.nonce != nil ==> a.nonce == prev.nonce
+//@   ensures [C09:else_untouched] !(a != nil && prev != nil && prev.nonce != nil) && a != nil ==> a.nonce == old(a.nonce)
